@@ -213,3 +213,46 @@ Print Assumptions C08_sliced_revision_not_archived.
 Example C08_names_unique : NoDup (map sname (dw_sets wit_gc_world)).
 Proof. vm_compute. repeat constructor; cbn; intuition discriminate. Qed.
 Print Assumptions C08_names_unique.
+
+(** * The handover clause at system level *)
+From PKO Require Import HandoverProofs.
+
+(** The full clause is REFUTED for the code as it is, in three independent ways; each witness is a history from an empty
+    cluster on which the model and the real controllers agree step by step (checks/C08.py, handover corpus) and which ends
+    with the teardown of an archived revision deleting an object that the next newer revision (active, not deleted) lists.
+    [handover_violation hash slices w n r nx k]: in world w the ObjectSet n = r is archived, nx is listed right after it,
+    is active, lists k, k exists, and the next pass of the ObjectSet controller for n removes k. *)
+
+(** F-C08c: status.controllerOf stops at the first phase whose probe fails (also in the paused pass that confirms Paused=True):
+    ordinary passes only (fresh fault-free deployment passes, full ObjectSet passes, edits, probe inputs). *)
+Theorem C08_handover_refuted_truncated :
+  exists hash slices w0 h n r nx k,
+    from_scratch w0 /\ forallb plain_step h = true /\
+    handover_violation hash slices (run hash slices w0 h) n r nx k /\
+    is_status_paused r = true /\ controls (os_id (ds_set r)) (run hash slices w0 h) k /\
+    (exists o, stored (run hash slices w0 h) k = Some o /\ o_cache o = true) /\ ~ In k (os_ctrlof (ds_set r)).
+Proof. exact handover_refuted_truncated. Qed.
+Print Assumptions C08_handover_refuted_truncated.
+
+(** F-C08d: single-phase outgoing revision; the teardown of an older revision removed the cache label of an object it had handed
+    over, the paused pass (deployment paused) does not see the object, and the stale Paused=True is accepted after the unpause. *)
+Theorem C08_handover_refuted_cache_label :
+  exists hash slices w0 h n r nx k,
+    from_scratch w0 /\
+    handover_violation hash slices (run hash slices w0 h) n r nx k /\
+    length (os_phases (ds_set r)) = 1%nat /\
+    is_status_paused r = true /\ controls (os_id (ds_set r)) (run hash slices w0 h) k /\
+    (exists o, stored (run hash slices w0 h) k = Some o /\ o_cache o = false) /\ ~ In k (os_ctrlof (ds_set r)).
+Proof. exact handover_refuted_cache_label. Qed.
+Print Assumptions C08_handover_refuted_cache_label.
+
+(** F-C08e: single phases only, ordinary passes only, the deployment never paused, controllerOf of the outgoing revision complete:
+    the archival rests on the Available report of a revision that controls nothing. *)
+Theorem C08_handover_refuted_stale_available :
+  exists hash slices w0 h n r nx k,
+    from_scratch w0 /\ forallb plain_step h = true /\ forallb one_phase_step h = true /\
+    (length (d_phases (dw_dep w0)) <= 1)%nat /\
+    handover_violation hash slices (run hash slices w0 h) n r nx k /\
+    is_available nx = true /\ os_ctrlof (ds_set nx) = [] /\ In k (os_ctrlof (ds_set r)).
+Proof. exact handover_refuted_stale_available. Qed.
+Print Assumptions C08_handover_refuted_stale_available.
